@@ -306,7 +306,7 @@ def mutated_set(seed, i, corpus):
     data = base["files"][name]
     ops = []
     for _ in range(rng.randint(1, 3)):
-        op = rng.choice(["byte", "delete", "dup_line", "drop_line", "multibyte", "crlf", "truncate", "truncate_clean", "trailing_backslash", "token_swap", "insert_token", "decorate", "decorate", "bom"])
+        op = rng.choice(["byte", "delete", "dup_line", "drop_line", "multibyte", "crlf", "truncate", "truncate_clean", "trailing_backslash", "token_swap", "insert_token", "decorate", "decorate", "bom", "odd_line_breaks"])
         ops.append(op)
         if not data:
             break
@@ -334,6 +334,15 @@ def mutated_set(seed, i, corpus):
             data = (text[:j] + rng.choice(MULTIBYTE) + text[j:]).encode()
         elif op == "crlf":
             data = data.replace(b"\r\n", b"\n").replace(b"\n", b"\r\n")
+        elif op == "odd_line_breaks":
+            # characters that some tools take for line ends, in comments (legal anywhere): the
+            # compiler's lines end at line feeds only
+            lines = data.split(b"\n")
+            for _k in range(rng.randint(1, 3)):
+                j = rng.randrange(len(lines))
+                ch = rng.choice(["\x0c", "\x0b", "\x85", "\u2028", "\u2029", "\r"])
+                lines[j] = lines[j] + (" // page%sbreak" % ch).encode()
+            data = b"\n".join(lines)
         elif op == "bom":
             if not data.startswith(b"\xef\xbb\xbf"):
                 data = b"\xef\xbb\xbf" + data
@@ -677,9 +686,7 @@ def evaluate_set(s, wd, cfg, rng, stats):
             t = texts[fn]
             if t is None:
                 continue
-            # the header's line number is ariadne's, which also breaks lines at a
-            # bare CR, VT, FF, NEL and the Unicode line/paragraph separators
-            nlines = 1 + sum(t.count(c) for c in ("\n", "\r", "\x0b", "\x0c", "\x85", "\u2028", "\u2029"))
+            nlines = 1 + t.count("\n")
             if int(line) < 1 or int(line) > nlines:
                 viol.append(("location_line_out_of_range", "%s:%s:%s but the file has %d lines" % (fn, line, col, nlines), {}))
     seen = {}
@@ -727,9 +734,11 @@ def check_locations_structured(s, wd, stats):
                 a0 = int(a0)
                 if a0 > len(t0):
                     continue
-                # line and column the way the renderer counts them (ariadne's line terminators)
-                ls = max(t0.rfind(c, 0, a0) for c in ("\n", "\r", "\x0b", "\x0c", "\x85", "\u2028", "\u2029")) + 1
-                nl = 1 + sum(1 for k, ch in enumerate(t0[:a0]) if ch in "\n\x0b\x0c\x85\u2028\u2029" or (ch == "\r" and t0[k + 1:k + 2] != "\n"))
+                # line and column the way the compiler itself counts them (`Location`,
+                # `line!()`): lines end at a line feed and nowhere else - not at a form
+                # feed, vertical tab, NEL, U+2028/2029 or a lone carriage return
+                ls = t0.rfind("\n", 0, a0) + 1
+                nl = 1 + t0.count("\n", 0, a0)
                 starts.add((fn0, nl, a0 - ls + 1))
             for fn, a, b, ln, lo in LOC.findall(e):
                 fn = fn.encode().decode("unicode_escape") if "\\" in fn else fn
